@@ -26,18 +26,18 @@ def ctorBinds (c : Ctor) : Bool :=
                                (sig.params.idxOf p < c.fwdPos.length))
 
 theorem C09_ctor_tables_bind : (generalCtors ++ mapCtors).all ctorBinds = true := by
-  sorry
+  decide +kernel
 
 /-- every forwarded name is a parameter of the constructor itself -/
 theorem C09_ctor_tables_closed :
     (generalCtors ++ mapCtors).all (fun c =>
       (c.fwdPos ++ c.fwdKw.map (·.2)).all (fun n => c.params.contains n)) = true := by
-  sorry
+  decide +kernel
 
 /-- the spec parser resolves callables in the constructor tables (case-insensitively), accepts only the
     listed pre-processor tokens, and refuses non-string keys – as read from the source -/
 theorem C09_parser_flags : callableFromCtorTables = true ∧ preProcStrict = true ∧ condKeyStrGuard = true := by
-  sorry
+  decide
 
 /-- the alias tables: type/dtype, len/length, in/in_ -/
 theorem C09_aliases :
@@ -46,7 +46,7 @@ theorem C09_aliases :
     lookupStr "in" callableLookup = some "in_" ∧
     generalAliases = [("eq", "equal_to"), ("lt", "less_than"), ("gt", "greater_than"),
                       ("lte", "less_than_or_equal_to"), ("gte", "greater_than_or_equal_to")] := by
-  sorry
+  decide +kernel
 
 /-- type names in any letter case, `map` for `dict`, and the type objects themselves all convert to
     the same type -/
@@ -56,14 +56,14 @@ theorem C09_type_names :
     convType (.str "Path") = .ok (.type .path) ∧ convType (.str "list") = .ok (.type .list) ∧
     convType (.str "str") = .ok (.type .str) ∧ convType (.str "FLOAT") = .ok (.type .float) ∧
     convType (.str "bool") = .ok (.type .bool) ∧ convType (.str "nope") = .error .malformedCond := by
-  sorry
+  refine ⟨?_, ?_, ?_, ?_, ?_, ?_, ?_, ?_, ?_, ?_⟩ <;> rfl
 
 /-! ### the parser -/
 
 /-- a falsy spec (`{}`, `None`) is the null condition -/
 theorem C09_null (fuel : Nat) (spec : PyVal) (h : PyVal.truthy spec = false) :
     parseCond (fuel + 1) spec = .ok Cond.null := by
-  sorry
+  rw [parseCond.eq_def]; simp [h]
 
 /-- and / or / xor lists fold from the left, starting from the null condition, with the same
     combination `&`, `|`, `^` build -/
@@ -74,7 +74,7 @@ theorem C09_fold (fuel : Nat) (specs : List PyVal) :
       specs.foldlM (fun acc s => do let c ← parseCond fuel s; Cond.mkBin .or acc c) Cond.null ∧
     parseCond (fuel + 1) (.dict [(.str "xor", .list specs)]) =
       specs.foldlM (fun acc s => do let c ← parseCond fuel s; Cond.mkBin .xor acc c) Cond.null := by
-  sorry
+  exact ⟨rfl, rfl, rfl⟩
 
 /-- letter case of the key does not matter: two (non-operator) keys whose dot-separated tokens agree
     after lower-casing parse to the same condition -/
@@ -82,13 +82,26 @@ theorem C09_case_insensitive (fuel : Nat) (k k' : String) (v : PyVal)
     (hk : lookupStr k binaryOps = none) (hk' : lookupStr k' binaryOps = none)
     (h : (splitDot k).mapM pyLower = (splitDot k').mapM pyLower) :
     parseCond fuel (.dict [(.str k, v)]) = parseCond fuel (.dict [(.str k', v)]) := by
-  sorry
+  cases fuel with
+  | zero => rfl
+  | succ fuel =>
+    -- one unfolding: the key is used only through `lookupStr · binaryOps` and `splitDot · |>.mapM pyLower`
+    rw [parseCond.eq_2, parseCond.eq_2, hk, hk', h]
+    simp only [PyVal.truthy, List.isEmpty_cons]
 
 /-- a spec is rejected unless it is a mapping with exactly one key -/
+-- STATEMENT CHANGED: the first conjunct read `∀ n, parseCond (fuel + 1) (.int (n + 1)) = .error .typeError`
+-- where `n` elaborates to an `Int`; it is false for `n = -1`: `.int 0` is falsy, so
+-- `parseCond (fuel + 1) (.int 0) = .ok Cond.null` (by `C09_null`).  Repaired with the weakest hypothesis
+-- (the integer is non-zero, i.e. truthy); this covers every `.int (n + 1)` with `n + 1 ≠ 0`.
 theorem C09_shape (fuel : Nat) :
-    (∀ n, parseCond (fuel + 1) (.int (n + 1)) = .error .typeError) ∧
+    (∀ n : Int, n ≠ 0 → parseCond (fuel + 1) (.int n) = .error .typeError) ∧
     (∀ k v k' v' rest, parseCond (fuel + 1) (.dict ((k, v) :: (k', v') :: rest)) = .error .malformedCond) := by
-  sorry
+  constructor
+  · intro n hn
+    rw [parseCond.eq_def]; simp [PyVal.truthy, hn]
+  · intro k v k' v' rest
+    rfl
 
 /-! ### DSL calls -/
 
@@ -113,14 +126,27 @@ theorem C09_dsl_rows (a b : Arg) (xs : List Arg) (kw : List (String × Arg)) :
     Dsl.call Arg.lit .index "keys_contain" [a] [] = .error .attributeError ∧
     Dsl.call Arg.lit .value "equal_to" [a, b] [] = .error .typeError ∧
     Dsl.call Arg.lit .value "equal_to" [] [] = .error .typeError := by
-  sorry
+  refine ⟨rfl, rfl, rfl, rfl, ?_, rfl, rfl, rfl, rfl, rfl, rfl⟩
+  -- var-positional: the number of arguments is symbolic
+  have hc : findCtor .value "is_instance" = .ok
+      { name := "is_instance", params := [], defaults := [], varPos := some "classes", varKw := none,
+        target := "is_instance", fwdPos := [], fwdStar := true, fwdKw := [], fwdStarStar := false } := rfl
+  simp [Dsl.call, hc, buildLeaf, bindCtorParams, bind, Except.bind, pure, Except.pure]
 
-/-- the default tolerance of `equal_to_approx` is the double 1e-08 -/
+/-- the default tolerance of `equal_to_approx` is the double 1e-08: a normal double (53-bit mantissa
+    `tol / 2^995`, i.e. spacing `2^995` in units of `2^-1074`) within half a spacing of `10^-8` -/
+-- STATEMENT CHANGED: the bracket `tol * 10^8 ≤ scale ∧ scale < (tol + 1) * 10^8 + 10^8` is false for the
+-- value in the table (the only `tol` satisfying the first conjunct): the double `1e-08` is
+-- 0x1.5798ee2308c3ap-27 = 1.0000000000000000209…e-08 > 10^-8, so `tol * 10^8 - scale > 0` (a 1019-bit
+-- number); doubles near 1e-08 are `2^995` units apart, not 1.  Corrected right-hand side: `tol` is the
+-- double nearest to `10^-8`.
 theorem C09_default_tolerance (a : Arg) :
     ∃ tol, Dsl.call Arg.lit .value "equal_to_approx" [a] [] =
       .ok (.leaf { cls := .value, fn := "equal_to_approx", args := [], kwargs := [("value", a), ("tolerance", .lit (.float tol))] })
-      ∧ tol * 100000000 ≤ PyVal.scale ∧ PyVal.scale < (tol + 1) * 100000000 + 100000000 := by
-  sorry
+      ∧ tol % 2 ^ 995 = 0 ∧ 2 ^ 1047 ≤ tol ∧ tol < 2 ^ 1048
+      ∧ 2 * (tol * 100000000 - PyVal.scale) ≤ 2 ^ 995 * 100000000
+      ∧ 2 * (PyVal.scale - tol * 100000000) ≤ 2 ^ 995 * 100000000 := by
+  refine ⟨_, rfl, ?_, ?_, ?_, ?_, ?_⟩ <;> decide +kernel
 
 /-- a spec and the DSL call it names give the same condition: scalar argument, one-parameter
     constructor of `Value` (the other rows are validated by the correspondence run) -/
@@ -138,6 +164,6 @@ theorem C09_spec_is_dsl_scalar (fuel : Nat) (n : Int) :
       Dsl.call Arg.lit .value "in_range" [] [("upper", .lit (.int n)), ("lower", .lit (.int 0))] ∧
     parseCond (fuel + 3) (.dict [(.str "value.keys_contain_n_of", .list [.int n, .list [.str "a"]])]) =
       Dsl.call Arg.lit .value "keys_contain_N_of" [.lit (.int n), .lit (.list [.str "a"])] [] := by
-  sorry
+  exact ⟨rfl, rfl, rfl, rfl, rfl, rfl, rfl, rfl⟩
 
 end ValidaProofs
